@@ -21,12 +21,12 @@ txt = f'''
 
 Each change compiles, keeps the 3542 tests green, and comes with a demonstration that fails with it and
 passes without it (confirmed with `tools/seedeval.sh`). Batches 1-4 were written against the property text alone;
-batches 5-8 ("hard mode") were additionally told what a property-based harness of this kind generates and asked for a
+batches 5-15 ("hard mode") were additionally told what a property-based harness of this kind generates and asked for a
 change it would plausibly miss - the description grew with every batch. `tools/selftest.sh` re-applies every patch
 in a scratch worktree and runs the quick check of the targeted property and of the properties listed under
 `also_check` (`detection.json`). {len(rows)} changes so far; {missed} were missed and {thin} were caught only thinly or
 seed-dependently by the checks as they stood when the change arrived; after the strengthening recorded in the history
-column {len(rows) - undetected} of the {len(rows)} changes are detected by a quick check ({undetected} is not, see 10.6): {len(rows) - other_only - undetected} by the quick check of the property they were written
+column {len(rows) - undetected} of the {len(rows)} changes are detected by a quick check ({undetected} are not, see 10.6): {len(rows) - other_only - undetected} by the quick check of the property they were written
 against, {other_only} only by another property's check (changes that are wrong only under concurrency were written
 against sequential properties C04 / C09 / C10 / C12 and are C19's subject).
 
